@@ -171,14 +171,21 @@ def vanishedUpdated (node : α → Option FileRec) (disk : α → Option Nat) (p
 def finalDeleted (node : α → Option FileRec) (disk : α → Option Nat) (present : α → Bool) (s : Sets α) : List α :=
   s.deleted ++ (vanishedUpdated node disk present s).filter (· ∉ s.deleted)
 
-/-- `startup.rescan_files`: every attached file that is not PLANNED or VOLATILE is re-hashed, with
+/-- What `startup.rescan_files` looks at: the attached files that are not PLANNED or VOLATILE, and
+the detached files in a static state (CONFIRMED, MISSING, UNCONFIRMED): a later build that defines
+their creator again attaches them again with their recorded hash. -/
+def FileRec.restartScans (r : FileRec) : Bool :=
+  r.rescannable ||
+    (!r.attached && (decide (r.state = .confirmed) || decide (r.state = .missing) || decide (r.state = .unconfirmed)))
+
+/-- `startup.rescan_files`: every file it looks at (`restartScans`) is re-hashed, with
 cause CONFIRMED when it is UNCONFIRMED, else EXTERNAL; a result is applied when it differs or when the
 cause is CONFIRMED. -/
 def restartApplied (paths : List α) (node : α → Option FileRec) (disk : α → Option Nat) : List (Applied α) :=
   paths.filterMap fun p =>
     match node p with
     | some r =>
-      if r.rescannable then
+      if r.restartScans then
         if r.state = .unconfirmed then some { path := p, cause := .confirmed, newHash := disk p }
         else if disk p ≠ r.hash then some { path := p, cause := .external, newHash := disk p } else none
       else none
